@@ -31,7 +31,9 @@
  * and prints `end live=<n> bad=<n>`. Bit 1 of <options> is QVECTOR_THREADSAFE. */
 static int E;       /* errno of the windowed call */
 static long A;      /* allocation attempts of the windowed call */
-#define WIN(stmt) do { errno = 0; aw_begin(); stmt; E = errno; A = aw_end(); printf("allocs=%ld ", A); } while (0)
+#define WIN(stmt) do { PLANT(); aw_begin(); stmt; E = errno; A = aw_end(); printf("allocs=%ld ", A); } while (0)
+/* errno is the call's only failure report: the caller clears it first (see seqkeep.h) */
+#define WIN0(stmt) do { PLANT0(); aw_begin(); stmt; E = errno; A = aw_end(); printf("allocs=%ld ", A); } while (0)
 
 static qvector_t *V;
 static size_t OS;           /* objsize given at construction: the size of the caller's elements */
@@ -41,6 +43,7 @@ static void dump(void) {
     size_t sz = qvector_size(V);
     printf(" sz=%zu obs=[", sz);
     for (size_t i = 0; i < sz; i++) {
+        PLANT();
         void *d = qvector_getat(V, (int) i, true);
         if (i) printf(",");
         /* the caller knows elements to be OS bytes long */
@@ -179,15 +182,18 @@ out:
  * NULL, and a resize to the current capacity) on the current state, `name=result:errno` per call;
  * nothing may change. Not a windowed call (an armed failure stays armed and cannot fire here). */
 static const char *ename(int e) { return e == EIO ? "EIO" : errname(e); }
-static void iv_bool(const char *name, bool r) { int e = errno; printf(" %s=%s:%s", name, r ? "true" : "false", ename(e)); }
+/* errno is read after a FAILED call only (a successful call may leave any value behind) */
+static void iv_bool(const char *name, bool r) { int e = errno; printf(" %s=%s:%s", name, r ? "true" : "false", r ? "0" : ename(e)); }
 static void iv_data(const char *name, void *d, size_t n, bool own) {
     int e = errno;
     printf(" %s=", name);
     if (d == NULL) printf("null"); else { printf("data"); puthex(stdout, d, n); }
-    printf(":%s", ename(e));
+    printf(":%s", d != NULL ? "0" : ename(e));
     if (d != NULL && own) vf_free(d);
 }
-#define IVB(name, call) do { errno = 0; bool r_ = (call); iv_bool(name, r_); } while (0)
+#define IVB(name, call) do { PLANT(); bool r_ = (call); iv_bool(name, r_); } while (0)
+/* a refusal for which no errno is documented: `kept` when the caller's errno is still there */
+#define IVK(name, call) do { PLANT(); bool r_ = (call); int e_ = errno; printf(" %s=%s:%s", name, r_ ? "true" : "false", r_ ? "0" : e_ == plant_last ? "kept" : ename(e_)); } while (0)
 
 static void inv_vector(void) {
     unsigned char *x = calloc(1, OS ? OS : 1);      /* exactly objsize bytes */
@@ -198,18 +204,18 @@ static void inv_vector(void) {
     IVB("addlastnull", qvector_addlast(V, NULL));
     IVB("addabove", qvector_addat(V, n + 1, x));
     IVB("addbelow", qvector_addat(V, -n - 1, x));
-    errno = 0; { void *d = qvector_getat(V, n, true); iv_data("getabove", d, V->objsize, true); }
-    errno = 0; { void *d = qvector_getat(V, -n - 1, false); iv_data("getbelow", d, V->objsize, false); }
+    PLANT(); { void *d = qvector_getat(V, n, true); iv_data("getabove", d, V->objsize, true); }
+    PLANT(); { void *d = qvector_getat(V, -n - 1, false); iv_data("getbelow", d, V->objsize, false); }
     IVB("setabove", qvector_setat(V, n, x));
     IVB("setbelow", qvector_setat(V, -n - 1, x));
-    errno = 0; { void *d = qvector_popat(V, n); iv_data("popabove", d, V->objsize, true); }
-    errno = 0; { void *d = qvector_popat(V, -n - 1); iv_data("popbelow", d, V->objsize, true); }
+    PLANT(); { void *d = qvector_popat(V, n); iv_data("popabove", d, V->objsize, true); }
+    PLANT(); { void *d = qvector_popat(V, -n - 1); iv_data("popbelow", d, V->objsize, true); }
     IVB("removeabove", qvector_removeat(V, n));
     IVB("removebelow", qvector_removeat(V, -n - 1));
-    IVB("nextnull0", qvector_getnext(V, NULL, false));
-    IVB("nextnull1", qvector_getnext(V, NULL, true));
+    IVK("nextnull0", qvector_getnext(V, NULL, false));
+    IVK("nextnull1", qvector_getnext(V, NULL, true));
     IVB("debugnull", qvector_debug(V, NULL));
-    errno = 0; { size_t ts = V->num * V->objsize; void *d = qvector_toarray(V, NULL); iv_data("toarraynosize", d, ts, true); }
+    PLANT(); { size_t ts = V->num * V->objsize; void *d = qvector_toarray(V, NULL); iv_data("toarraynosize", d, ts, true); }
     IVB("resizesame", qvector_resize(V, V->max));
     free(x);
 }
@@ -240,11 +246,11 @@ static void do_lockprobe(void) {
     memset(x, 0x4c, OS);
     printf("lockprobe ");
     if (V->qmutex == NULL) {
-        errno = 0; bool r = qvector_addlast(V, x); int e = errno;
+        PLANT(); bool r = qvector_addlast(V, x); int e = errno;
         res_bool(r, e); printf(" nolock");
     } else {
         V->lock(V);
-        errno = 0; bool r = qvector_addlast(V, x); int e = errno;       /* addlast -> addat -> resize */
+        PLANT(); bool r = qvector_addlast(V, x); int e = errno;       /* addlast -> addat -> resize */
         int held = probe_busy(V->qmutex);
         V->unlock(V);
         int after = probe_busy(V->qmutex);
@@ -256,7 +262,7 @@ static void do_lockprobe(void) {
 static int do_op(int nw, char **w) {
     const char *op = w[0];
     bytes_t a = {0, 0};
-    errno = 0;
+    PLANT();
     if ((!strcmp(op, "addfirst") || !strcmp(op, "addlast")) && nw == 2) {
         if (!elem(w[1], &a)) return 0;
         bool r; WIN(r = op[3] == 'f' ? qvector_addfirst(V, a.p) : qvector_addlast(V, a.p));
@@ -302,7 +308,7 @@ static int do_op(int nw, char **w) {
         bool r; WIN(r = qvector_resize(V, strtoull(w[1], NULL, 10))); res_bool(r, E);
     } else if (!strcmp(op, "reverse") && nw == 1) {
         /* void function: an allocation failure is visible in errno only */
-        WIN(qvector_reverse(V)); printf(E == ENOMEM ? "ENOMEM" : "ok");
+        WIN0(qvector_reverse(V)); printf(E == ENOMEM ? "ENOMEM" : "ok");
     } else if (!strcmp(op, "clear") && nw == 1) {
         WIN(qvector_clear(V)); printf("ok");
     } else if (!strcmp(op, "toarray") && nw == 1) {
@@ -317,11 +323,11 @@ static int do_op(int nw, char **w) {
         qvector_obj_t o; memset(&o, 0, sizeof(o));
         printf("walk");
         size_t guard = V->num + 4;
-        errno = 0;
+        PLANT();
         while (qvector_getnext(V, &o, nm)) {
             printf(" "); puthex(stdout, o.data, V->objsize);
             if (nm) keep(o.data, V->objsize);
-            errno = 0;
+            PLANT();
             if (guard-- == 0) { printf(" ENDLESS"); break; }
         }
         printf(" end %s", errname(errno));
@@ -371,6 +377,7 @@ int main(void) {
             long bad = check_kept();
             memset(&cur, 0, sizeof(cur));
             OS = strtoull(w[2], NULL, 10);
+            plant_restart(strtoull(w[1], NULL, 10) * 3 + OS * 5 + (unsigned long) atoi(w[3]));
             WIN(V = qvector(strtoull(w[1], NULL, 10), OS, atoi(w[3])));
             if (bad) printf("KEPT-BAD=%ld ", bad);
             if (V == NULL) { printf("null %s live=%ld\n", errname(E), live_blocks()); fflush(stdout); continue; }
